@@ -182,13 +182,18 @@ static uint64_t sets_value(const char *tok, uint64_t needed)
 }
 
 // The scheduled lzma_memlimit_set() calls that are due at input position `total_in`.
+// Warm-up run of a handle that is re-initialised afterwards ("re" op): events are not printed.
+static bool g_quiet;
+static struct { bool on; uint64_t limit; uint8_t *buf; size_t len; } warm;
+#define EV(...) do { if (!g_quiet) printf(__VA_ARGS__); } while (0)
+
 static void sets_apply_due(lzma_stream *strm, sets_t *s, uint64_t total_in)
 {
 	while (s->ppos < s->npre && s->pre[s->ppos].off <= total_in) {
 		uint64_t usage = lzma_memusage(strm);
 		uint64_t v = sets_value(s->pre[s->ppos++].tok, usage);
 		lzma_ret r = lzma_memlimit_set(strm, v);
-		printf("P%" PRIu64 "=%d/%" PRIu64 "/%" PRIu64 " ", v, (int)r, lzma_memlimit_get(strm), lzma_memusage(strm));
+		EV("P%" PRIu64 "=%d/%" PRIu64 "/%" PRIu64 " ", v, (int)r, lzma_memlimit_get(strm), lzma_memusage(strm));
 	}
 }
 
@@ -238,20 +243,20 @@ static lzma_ret run_decoder(lzma_stream *strm, const uint8_t *in, size_t len, si
 		}
 		idle = 0;
 		if (ret == LZMA_NO_CHECK || ret == LZMA_UNSUPPORTED_CHECK || ret == LZMA_GET_CHECK) {
-			printf("C%d ", (int)ret);
+			EV("C%d ", (int)ret);
 			continue;
 		}
 		if (ret == LZMA_MEMLIMIT_ERROR) {
 			uint64_t needed = lzma_memusage(strm);
 			if (deterministic_alloc)
-				printf("M%" PRIu64 "/%" PRIu64 "/%" PRIu64 "/%" PRIu64 " ", needed, lzma_memlimit_get(strm), cnt->live, cnt->peak);
+				EV("M%" PRIu64 "/%" PRIu64 "/%" PRIu64 "/%" PRIu64 " ", needed, lzma_memlimit_get(strm), cnt->live, cnt->peak);
 			else
-				printf("M%" PRIu64 "/%" PRIu64 " ", needed, lzma_memlimit_get(strm));
+				EV("M%" PRIu64 "/%" PRIu64 " ", needed, lzma_memlimit_get(strm));
 			bool ok = false;
 			while (sets->pos < sets->n) {
 				uint64_t v = sets_value(sets->toks[sets->pos++], needed);
 				lzma_ret r = lzma_memlimit_set(strm, v);
-				printf("S%" PRIu64 "=%d/%" PRIu64 "/%" PRIu64 " ", v, (int)r, lzma_memlimit_get(strm), lzma_memusage(strm));
+				EV("S%" PRIu64 "=%d/%" PRIu64 "/%" PRIu64 " ", v, (int)r, lzma_memlimit_get(strm), lzma_memusage(strm));
 				if (r == LZMA_OK) { ok = true; break; }
 			}
 			if (ok)
@@ -264,6 +269,15 @@ static lzma_ret run_decoder(lzma_stream *strm, const uint8_t *in, size_t len, si
 }
 
 typedef struct { lzma_ret ret; uint64_t in, out, peak; uint32_t crc; } summary_t;
+
+// After the warm-up decode: what is still allocated stays with the handle (coders are reused); the statistics restart.
+static void warm_done(c09_counter *cnt, lzma_ret ret)
+{
+	printf("W%d/%" PRIu64 " ", (int)ret, cnt->live);
+	cnt->peak = cnt->live;
+	cnt->nsizes = 0;
+	cnt->overflow = false;
+}
 
 static lzma_ret init_decoder(lzma_stream *strm, const char *kind, uint64_t limit, uint32_t flags)
 {
@@ -302,6 +316,17 @@ static void op_dec(hp_line *l)
 	c09_counter cnt; lzma_allocator al; c09_counter_init(&cnt, &al);
 	lzma_stream strm = LZMA_STREAM_INIT; strm.allocator = &al;
 	sets_t s; sets_parse(&s, l->tok[4]);
+	if (warm.on) {
+		// use the handle for another file first, then initialise it again (lzma_*_decoder() on a used lzma_stream)
+		sets_t s0; sets_parse(&s0, "-");
+		uint64_t o0;
+		lzma_ret r0 = init_decoder(&strm, kind, warm.limit, flags);
+		g_quiet = true;
+		if (r0 == LZMA_OK) r0 = run_decoder(&strm, warm.buf, warm.len, chunk, &s0, &cnt, true, &o0);
+		g_quiet = false;
+		sets_free(&s0);
+		warm_done(&cnt, r0);
+	}
 	lzma_ret ret = init_decoder(&strm, kind, limit, flags);
 	uint64_t out_total = 0;
 	printf("I%d/%" PRIu64 "/%" PRIu64 " ", (int)ret, lzma_memusage(&strm), lzma_memlimit_get(&strm));
@@ -369,6 +394,21 @@ static void op_decmt(hp_line *l, int o)
 	}
 	lzma_stream strm = LZMA_STREAM_INIT; strm.allocator = &al;
 	sets_t s; sets_parse(&s, l->tok[o + 5]);
+	if (warm.on) {
+		sets_t s0; sets_parse(&s0, "-");
+		uint64_t o0;
+		lzma_mt mt0 = mt;
+		mt0.memlimit_stop = warm.limit;
+		// "re UINT64_MAX": the warm-up may use worker threads; any other limit0: threading limit of the op (0/1 = direct mode)
+		if (warm.limit == UINT64_MAX)
+			mt0.memlimit_threading = UINT64_MAX;
+		lzma_ret r0 = lzma_stream_decoder_mt(&strm, &mt0);
+		g_quiet = true;
+		if (r0 == LZMA_OK) r0 = run_decoder(&strm, warm.buf, warm.len, chunk, &s0, &cnt, false, &o0);
+		g_quiet = false;
+		sets_free(&s0);
+		warm_done(&cnt, r0);
+	}
 	lzma_ret ret = lzma_stream_decoder_mt(&strm, &mt);
 	uint64_t out_total = 0;
 	printf("I%d/%" PRIu64 "/%" PRIu64 " ", (int)ret, lzma_memusage(&strm), lzma_memlimit_get(&strm));
@@ -403,6 +443,18 @@ static void op_idx(hp_line *l)
 	lzma_stream strm = LZMA_STREAM_INIT; strm.allocator = &al;
 	sets_t s; sets_parse(&s, l->tok[2]);
 	lzma_index *idx = NULL;
+	if (warm.on) {
+		sets_t s0; sets_parse(&s0, "-");
+		uint64_t o0;
+		lzma_index *idx0 = NULL;
+		lzma_ret r0 = lzma_index_decoder(&strm, &idx0, warm.limit);
+		g_quiet = true;
+		if (r0 == LZMA_OK) r0 = run_decoder(&strm, warm.buf, warm.len, chunk, &s0, &cnt, true, &o0);
+		g_quiet = false;
+		sets_free(&s0);
+		lzma_index_end(idx0, &al);
+		warm_done(&cnt, r0);
+	}
 	lzma_ret ret = lzma_index_decoder(&strm, &idx, limit);
 	uint64_t out_total = 0;
 	printf("I%d/%" PRIu64 "/%" PRIu64 " ", (int)ret, lzma_memusage(&strm), lzma_memlimit_get(&strm));
@@ -523,6 +575,14 @@ static void op_finfo(hp_line *l)
 	lzma_stream strm = LZMA_STREAM_INIT; strm.allocator = &al;
 	sets_t s; sets_parse(&s, l->tok[2]);
 	lzma_index *idx = NULL;
+	if (warm.on) {
+		sets_t s0; sets_parse(&s0, "-");
+		lzma_index *idx0 = NULL;
+		lzma_ret r0 = finfo_run(&strm, &idx0, warm.buf, warm.len, warm.limit, &s0, &cnt, true);
+		sets_free(&s0);
+		lzma_index_end(idx0, &al);
+		warm_done(&cnt, r0);
+	}
 	lzma_ret ret = finfo_run(&strm, &idx, in, len, limit, &s, &cnt, false);
 	printf("R%d peak=%" PRIu64 " end=%" PRIu64 "/%" PRIu64, (int)ret, cnt.peak, lzma_memusage(&strm), lzma_memlimit_get(&strm));
 	uint64_t memused = idx != NULL ? lzma_index_memused(idx) : 0;
@@ -711,6 +771,15 @@ int main(void)
 {
 	hp_line l = {0};
 	while (hp_next(&l)) {
+		// re <limit0> <hex0> <op ...>: the decoder op runs on a handle that first decoded <hex0> (created with <limit0>) and
+		// was then initialised again; prints "W<ret>/<live>" for the warm-up
+		if (!strcmp(l.tok[0], "re") && l.ntok > 4) {
+			warm.on = true;
+			warm.limit = hp_u64(l.tok[1]);
+			warm.buf = hp_hex(l.tok[2], &warm.len);
+			memmove(&l.tok[0], &l.tok[3], (size_t)(l.ntok - 3) * sizeof(l.tok[0]));
+			l.ntok -= 3;
+		}
 		const char *op = l.tok[0];
 		if (!strcmp(op, "mu_lzdec") && l.ntok == 2) {
 			printf("%" PRIu64 "\n", lzma_lz_decoder_memusage((size_t)hp_u64(l.tok[1])));
@@ -783,6 +852,7 @@ int main(void)
 		} else {
 			printf("bad-op\n");
 		}
+		if (warm.on) { free(warm.buf); warm.buf = NULL; warm.on = false; }
 		fflush(stdout);
 	}
 	hp_done(&l);
